@@ -268,10 +268,18 @@ def main() -> int:  # noqa: C901, PLR0912, PLR0915
         "wall_s": round(time.time() - t0, 2),
         "violations": unlisted,
     }
-    if harness_errors:
+    if harness_errors and not unlisted:
         for e in harness_errors[:3]:
             print("HARNESS-ERROR:", e)
         return 2
+    if harness_errors:
+        # a violation that two fresh processes reproduce is real whatever else went wrong (typically
+        # the library carries state from one execution to the next inside a worker, which also
+        # trips the determinism re-check): report it; the exploration itself was not completed
+        for e in harness_errors[:3]:
+            print("NOTE (exploration incomplete):", e.splitlines()[-1][:300] if e else e)
+        coverage["exhaustive"] = False
+        coverage["incomplete_because"] = [e.splitlines()[-1][:300] for e in harness_errors[:3] if e]
     if agg["executions"] == 0 or not samples:
         print("HARNESS-ERROR: nothing explored")
         return 2
